@@ -175,6 +175,42 @@ theorem package_state :
        ("charTypeByFlag", "map[spg.CTFlag]string"), ("charTypeNamesByFlag", "map[spg.CTFlag]string")] := by
   decide
 
+/-- **Every assignment of the library that could outlive the statement it is in** (through a
+pointer, to a receiver field, to a package-level variable, to a variable captured by a function
+literal, or to an element of a parameter), regenerated from the source. Each one writes to an
+object created in the same call (`p`, the `Password` being built; `r` in `NewCharRecipe`; `req`)
+or to the private copy of a value receiver (`buildCharacterList` is only called on such a copy,
+`pointer_calls`). A separator function that remembers something between calls, a recipe method
+that writes through a shared pointer, a constructor that keeps and later edits the caller's
+slice — each adds an entry here. -/
+theorem writes_are_local :
+    Facts.sharedWrites =
+      [("CharRecipe.Generate", "p.Entropy", "ptrfield"), ("CharRecipe.Generate", "p.tokens", "ptrfield"),
+       ("(*CharRecipe).buildCharacterList", "r.requiredSets", "recvfield"),
+       ("(*CharRecipe).buildCharacterList", "r.requiredSets", "recvfield"),
+       ("(*CharRecipe).buildCharacterList", "r.requiredSets", "recvfield"),
+       ("(*CharRecipe).buildCharacterList", "r.allowedSet", "recvfield"),
+       ("(*CharRecipe).buildCharacterList", "req.s", "ptrfield"),
+       ("(*CharRecipe).buildCharacterList", "r.allowedSet", "recvfield"),
+       ("NewCharRecipe", "r.Length", "ptrfield"), ("NewCharRecipe", "r.Allow", "ptrfield"),
+       ("NewCharRecipe", "r.Exclude", "ptrfield"),
+       ("WLRecipe.Generate", "p.tokens", "ptrfield"), ("WLRecipe.Generate", "p.Entropy", "ptrfield")] := by
+  decide
+
+/-- No assignment to a package-level variable, to a variable captured by a closure (a separator
+function with memory), or through a parameter (the caller's slices). -/
+theorem no_global_or_captured_writes :
+    (Facts.sharedWrites.filter fun w => w.2.2 == "pkgvar" || w.2.2 == "captured" || w.2.2 == "paramelem") = [] := by
+  decide
+
+/-- The one writing pointer method is only called on the caller's private copy. -/
+theorem pointer_calls :
+    Facts.pointerMethodCalls =
+      [("CharRecipe.Generate", "value", "buildCharacterList", "r"),
+       ("CharRecipe.Entropy", "value", "buildCharacterList", "r"),
+       ("CharRecipe.Alphabet", "value", "buildCharacterList", "r"),
+       ("WLRecipe.Entropy", "value", "isAllCapitalizable", "r.list")] := by decide
+
 /-- With a pointer receiver a call would leave its derived fields behind in the caller's recipe. -/
 theorem pointer_receiver_counterexample :
     let cfg : Cfg := { tbl := [], maxTrials := 1, frNum := 1, frDen := 1 }
